@@ -182,13 +182,14 @@ impl Brc20ProgDatabase {
         match self.latest_block_number {
             Some((block_number, _)) => return Ok(block_number + 1),
             None => {
+                // On a database without any block the next block is block 0, not block 1
                 return Ok(self
                     .db_block_number_to_hash
                     .as_ref()
                     .expect(DB_MUTEX_ERROR)
                     .last_key()?
-                    .unwrap_or(0)
-                    + 1);
+                    .map(|block_number| block_number + 1)
+                    .unwrap_or(0));
             }
         }
     }
